@@ -17,8 +17,8 @@ META = {
         'assumptions': ['Kani/CBMC model of rustc MIR semantics', 'models of ndarray::Array2 and hashbrown::HashSet in /verif/models meet the documented contracts', 'stored rows contain at least one base and counts equal the number of non-gap symbols (what build/merge/delete store)'],
     },
     'C04': {
-        'bounds': 'AlnWriter: one step / finalise from every state satisfying the invariant, contig layouts of total length 12-17 at h=2 and h=3 (k=5, 7); mapping and reference indexing: <= 3 reference k-mers, k=5, references <= 12 bases',
-        'outside': ['FASTA text of the output', 'rayon schedule of pseudoalignment (sequential model)', 'references longer than the bounds', 'k > 7 for the writer (its code depends on k only through h)', 'generic_modes::map beyond the calls listed'],
+        'bounds': 'AlnWriter: one step / finalise from every state satisfying the invariant, contig layouts of total length 12-17 at h=2 and h=3 (k=5, 7); mapping: <= 3 reference k-mers x 2 samples; reference indexing (RefSka::new): one contig of 6 bases (7 with N, thorough), k=5',
+        'outside': ['the repeat mask coordinates computed by RefSka::new (--repeat-mask): three-contig harnesses with repeat tracking did not finish in 2 h, so the part of the property about repeat masking rests on C04.fin only (the writer masks exactly the coordinates it is given) and the defect the property anchors there is NOT decided', 'FASTA text of the output', 'rayon schedule of pseudoalignment (sequential model)', 'references longer than the bounds', 'k > 7 for the writer (its code depends on k only through h)', 'generic_modes::map beyond the calls listed'],
         'assumptions': ['Kani/CBMC model of rustc MIR semantics', 'the AlnWriter representation invariant of DESIGN appendix B (checked inductive: init + step; its adequacy is cross-checked by C04.hist without the invariant)', 'centres arrive in reference order and are valid (delivered by RefSka::new/map: C01.win, C04.map)', 'library models in /verif/models'],
     },
     'C02': {
@@ -27,7 +27,7 @@ META = {
         'assumptions': ['Kani/CBMC model of rustc MIR semantics', 'hashbrown/ndarray models in /verif/models'],
     },
     'C03': {
-        'bounds': 'table construction: 2 samples x 2 k-mers (3 x 3 thorough); FASTA writer: <= 2 x 3; filters: see C06',
+        'bounds': 'table construction: 2 samples x 2 k-mers, the 16 presence patterns as separate obligations (quick: 3 by VERIF_SEED); FASTA writer: <= 2 x 3; default align filter path: C06.row no-const and C06.thr',
         'outside': ['the end-to-end statement (ancestor sequences, planted SNPs) beyond the kernels listed: build = C01/C02, table = C03.new, filter = C06, writer = C03.fasta; the composition is argued in DESIGN.md, only the kernels are solver-checked', 'more than 3 samples'],
         'assumptions': ['Kani/CBMC model of rustc MIR semantics', 'hashbrown/ndarray/needletail::write_fasta models in /verif/models'],
     },
@@ -63,8 +63,8 @@ META = {
         'assumptions': ['Kani/CBMC model of rustc MIR semantics', 'hashbrown model', 'Bloom buffer of 4 words built directly (KmerFilter::init not executed)'],
     },
     'C13': {
-        'bounds': '2 k-mers x 2 samples, weed list <= 2 values of a 3-value universe, both directions, idempotence (thorough); wrapper: 2 x 3 / 1 x 3',
-        'outside': ['the weed k-mer set as a function of seqs.fa (= RefSka::new, see C04.ref) composed with weed', 'tables beyond 2 x 3'],
+        'bounds': '2 k-mers x 2 samples, weed list <= 2 values of a 3-value universe, both directions; wrapper: 2 x 3 / 1 x 3',
+        'outside': ['the weed k-mer set as a function of seqs.fa (= RefSka::new k-mer list, decided for one contig by C04.case) composed with weed', 'weeding a second time changes nothing (the two-call harness exhausts 16 GB; idempotence follows from C13.weed: the result contains no weed k-mer)', 'tables beyond 2 x 3'],
         'assumptions': ['Kani/CBMC model of rustc MIR semantics', 'hashbrown/ndarray models', 'MergeSkaArray::save replaced by a call counter (environment stub)'],
     },
     'C14': {
